@@ -86,13 +86,60 @@ ShapeLens(m, shape) ==
     [] shape = "single"   -> <<1>>
     [] OTHER              -> <<>>
 
+\* lens array of size n from a symbol list and the list of their lengths
+MkLensFrom(n, syms, sl) ==
+  [i \in 1..n |-> LET ks == {k \in 1..Len(syms) : syms[k] = i - 1}
+                  IN IF ks = {} THEN 0 ELSE sl[CHOOSE k \in ks : TRUE]]
 \* lens array of size n from a symbol list and a shape
-MkLens(n, syms, shape) ==
-  LET sl == ShapeLens(Len(syms), shape)
-  IN [i \in 1..n |-> LET ks == {k \in 1..Len(syms) : syms[k] = i - 1}
-                     IN IF ks = {} THEN 0 ELSE sl[CHOOSE k \in ks : TRUE]]
+MkLens(n, syms, shape) == MkLensFrom(n, syms, ShapeLens(Len(syms), shape))
 
-LitPalette == {
+(* "counts" palettes: an arbitrary complete code given by how many symbols  *)
+(* have each length 1..15 (cnts), handed to the symbols in the order of     *)
+(* syms (shortest first).  These reach the extremes of a decoder's table    *)
+(* construction: nearly all of the 286 literal/length symbols with 14-15    *)
+(* bit codes (the largest possible overflow tree behind a 10-bit fast       *)
+(* table), hundreds of codes just past the fast-table width, all 30         *)
+(* distance symbols long.  Kraft equality of every cnts is an ASSUME.       *)
+RECURSIVE ExpandCnts(_, _)
+ExpandCnts(c, l) == IF l > Len(c) THEN <<>> ELSE [i \in 1..c[l] |-> l] \o ExpandCnts(c, l + 1)
+RECURSIVE KraftUnits(_, _)
+KraftUnits(c, l) == IF l > Len(c) THEN 0 ELSE c[l] * Pow2(15 - l) + KraftUnits(c, l + 1)
+RECURSIVE SumSeq(_, _)
+SumSeq(c, l) == IF l > Len(c) THEN 0 ELSE c[l] + SumSeq(c, l + 1)
+Iota(n) == [i \in 1..n |-> i - 1]
+RevSeq(s) == [i \in 1..Len(s) |-> s[Len(s) + 1 - i]]
+\* symbol 256 (end of block) first, then the others ascending
+EobFirst(n) == <<256>> \o [i \in 1..(n - 1) |-> IF i - 1 < 256 THEN i - 1 ELSE i]
+CountsPal(name, order, n, cnts) ==
+  [syms |-> CASE order = "asc" -> Iota(n) [] order = "desc" -> RevSeq(Iota(n)) [] OTHER -> EobFirst(n),
+   shape |-> "counts", cnts |-> cnts, name |-> name \o "_" \o order]
+PalLens(n, pal) ==
+  IF pal.shape = "counts" THEN MkLensFrom(n, pal.syms, ExpandCnts(pal.cnts, 1)) ELSE MkLens(n, pal.syms, pal.shape)
+PalName(pal) == IF pal.shape = "counts" THEN pal.name ELSE pal.shape \o "_" \o ToString(Len(pal.syms))
+
+WideLitCnts == {
+  \* 9 short codes, 11 of 14 bits, 266 of 15 bits: 277 symbols behind the fast table
+  <<"l277", 286, <<1, 1, 1, 1, 1, 1, 0, 1, 1, 1, 0, 0, 0, 11, 266>>>>,
+  \* 6 short codes, 232 of 14 bits, 48 of 15 bits
+  <<"l280", 286, <<1, 1, 1, 1, 1, 1, 0, 0, 0, 0, 0, 0, 0, 232, 48>>>>,
+  \* 256 codes just past the fast table (11 bits), 259 symbols
+  <<"w11", 259, <<1, 1, 1, 0, 0, 0, 0, 0, 0, 0, 256, 0, 0, 0, 0>>>>,
+  \* 256 codes of 12 bits, 260 symbols
+  <<"w12", 260, <<1, 1, 1, 1, 0, 0, 0, 0, 0, 0, 0, 256, 0, 0, 0>>>>,
+  \* all 286 symbols with 8 and 9 bits (a dynamic twin of the fixed code)
+  <<"flat89", 286, <<0, 0, 0, 0, 0, 0, 0, 226, 60, 0, 0, 0, 0, 0, 0>>>>,
+  \* nearly every length in use, 256 symbols, populated on both sides of the fast-table edge
+  <<"edge", 286, <<1, 1, 1, 1, 0, 1, 1, 1, 1, 8, 16, 32, 32, 32, 128>>>> }
+WideDistCnts == {
+  <<"d45", 30, <<0, 0, 0, 2, 28, 0, 0, 0, 0, 0, 0, 0, 0, 0, 0>>>>,
+  <<"dlong", 30, <<1, 1, 1, 1, 1, 1, 1, 1, 1, 1, 0, 0, 0, 12, 8>>>>,
+  <<"d11", 30, <<1, 1, 1, 1, 1, 1, 1, 0, 0, 0, 16, 0, 0, 0, 0>>>> }
+ASSUME \A w \in WideLitCnts \cup WideDistCnts :
+          KraftUnits(w[3], 1) = 32768 /\ SumSeq(w[3], 1) <= w[2] /\ SumSeq(w[3], 1) >= 2
+WideLit == {CountsPal(w[1], o, SumSeq(w[3], 1), w[3]) : w \in WideLitCnts, o \in {"asc", "desc", "eob"}}
+WideDist == {CountsPal(w[1], o, SumSeq(w[3], 1), w[3]) : w \in WideDistCnts, o \in {"asc", "desc"}}
+
+BaseLitPalette == {
   [syms |-> <<256>>, shape |-> "single"],
   [syms |-> <<65, 256>>, shape |-> "balanced"],
   [syms |-> <<65, 66, 256, 257>>, shape |-> "balanced"],
@@ -101,8 +148,9 @@ LitPalette == {
   [syms |-> <<65, 66, 67, 68, 69, 70, 0, 255, 257, 258, 265, 269, 273, 284, 285, 256>>, shape |-> "rchain"],
   [syms |-> <<0, 1, 2, 3, 10, 32, 65, 66, 97, 98, 99, 100, 101, 127, 128, 200, 254, 255, 256, 257, 258, 259,
               260, 261, 262, 263, 264, 268, 272, 280, 284, 285>>, shape |-> "balanced"] }
+LitPalette == BaseLitPalette \cup WideLit
 
-DistPalette == {
+BaseDistPalette == {
   [syms |-> <<>>, shape |-> "none"],
   [syms |-> <<0>>, shape |-> "single"],
   [syms |-> <<5>>, shape |-> "single"],
@@ -110,6 +158,7 @@ DistPalette == {
   [syms |-> <<0, 1, 2, 29>>, shape |-> "balanced"],
   [syms |-> <<0, 1, 2, 3, 4, 8, 12, 16, 20, 24, 28, 29>>, shape |-> "chain"],
   [syms |-> <<29, 28, 24, 20, 16, 12, 8, 4, 3, 2, 1, 0>>, shape |-> "chain"] }
+DistPalette == BaseDistPalette \cup WideDist
 
 MaxSym(syms) == IF syms = <<>> THEN -1 ELSE CHOOSE s \in {syms[i] : i \in 1..Len(syms)} :
                                                \A j \in 1..Len(syms) : syms[j] <= s
@@ -172,6 +221,12 @@ Feat(f) == feats' = feats \cup {f}
 Pick(S) == IF Sim THEN {RandomElement(S)} ELSE S
 
 Rarely(n) == ~Sim \/ RandomElement(1..n) = 1
+\* simulation draws a wide ("counts") palette one time in three; an exhaustive config enumerates
+\* whatever the palette constant has been overridden with
+PickPal(base, wide, all) ==
+  IF Sim THEN {RandomElement(IF RandomElement(1..3) = 1 /\ (all \cap wide) # {} THEN all \cap wide
+                             ELSE IF (all \cap base) # {} THEN all \cap base ELSE all)}
+  ELSE all
 
 \* a valid zlib header: CM = 8, CINFO <= 7, FDICT = 0, FCHECK
 Start ==
@@ -216,14 +271,13 @@ BeginDynamic(final, lp, dp, bighl, bighd, rle, clmode) ==
   /\ CanStartBlock
   /\ LET hlit == IF bighl THEN 286 ELSE Max2(257, MaxSym(lp.syms) + 1)
          hdist == IF bighd THEN 30 ELSE Max2(1, MaxSym(dp.syms) + 1)
-         l1 == MkLens(hlit, lp.syms, lp.shape)
-         d1 == MkLens(hdist, dp.syms, dp.shape)
+         l1 == PalLens(hlit, lp)
+         d1 == PalLens(hdist, dp)
      IN /\ bits' = bits \o HdrBits(final, 2) \o DynHeaderBits(hlit, hdist, l1 \o d1, rle, clmode)
         /\ ll' = l1 /\ dl' = d1 /\ lcw' = AssignCodes(l1) /\ dcw' = AssignCodes(d1)
         /\ pdl' = dl /\ pdcw' = dcw
   /\ nblk' = nblk + 1 /\ fin' = final /\ ntok' = 0 /\ ph' = "tokens"
-  /\ feats' = feats \cup {"dyn_lit_" \o lp.shape \o "_" \o ToString(Len(lp.syms)),
-                          "dyn_dist_" \o dp.shape \o "_" \o ToString(Len(dp.syms)),
+  /\ feats' = feats \cup {"dyn_lit_" \o PalName(lp), "dyn_dist_" \o PalName(dp),
                           IF rle THEN "dyn_rle" ELSE "dyn_plain", "dyn_cl_" \o clmode}
                     \cup (IF bighl THEN {"hlit_286"} ELSE {}) \cup (IF bighd THEN {"hdist_30"} ELSE {})
   /\ UNCHANGED <<plain, zl, expect, why>>
@@ -406,7 +460,8 @@ GNext ==
   \/ Start
   \/ \E f \in Pick(BOOLEAN), d \in Pick(StoredChoices) : BeginStored(f, d)
   \/ \E f \in Pick(BOOLEAN) : BeginFixed(f)
-  \/ \E f \in Pick(BOOLEAN), lp \in Pick(LitPalette), dp \in Pick(DistPalette), o \in Pick(DynOpts) :
+  \/ \E f \in Pick(BOOLEAN), lp \in PickPal(BaseLitPalette, WideLit, LitPalette),
+        dp \in PickPal(BaseDistPalette, WideDist, DistPalette), o \in Pick(DynOpts) :
         BeginDynamic(f, lp, dp, o[1], o[2], o[3], o[4])
   \/ \E b \in Pick(LitChoices) : EmitLit(b)
   \/ \E lc \in Pick(LenChoices), dc \in Pick(DistChoices) : EmitMatch(lc[1], lc[2], dc[1], dc[2])
